@@ -34,6 +34,22 @@ pub struct FlowCase {
     /// HTTP/1 heads with bare LF line ends (bit 0: request head, bit 1: response head) - lenient recipients accept them (RFC 7230 3.5)
     #[serde(default)]
     pub lf_heads: u8,
+    /// 0 = frames as built, 1 = Ethernet frames zero-padded to the 60-byte minimum, 2 = padding + 4-byte FCS (bytes behind the
+    /// IP datagram are not TCP payload)
+    #[serde(default)]
+    pub wire: u8,
+}
+
+fn wireify(wire: u8, mut f: Vec<u8>) -> Vec<u8> {
+    if wire % 3 != 0 {
+        if f.len() < 60 {
+            f.resize(60, 0);
+        }
+        if wire % 3 == 2 {
+            f.extend_from_slice(&[0xde, 0xad, 0xbe, 0xef]);
+        }
+    }
+    f
 }
 
 impl FlowCase {
@@ -179,7 +195,7 @@ pub fn build(c: &FlowCase) -> (Vec<Pkt>, Vec<(usize, usize)>, Vec<(usize, usize)
         .map(|i| {
             let (a, b) = csegs[*i];
             let tcp = Tcp { sport: cport, dport: sport, seq: c.c_isn.wrapping_add(1).wrapping_add(a as u32), ack: c.s_isn.wrapping_add(1), flags: ACK | PSH, payload: cs[a..b].to_vec(), ..Tcp::default() };
-            Pkt { client: true, seg: Some(*i), frame: frame(Link::Ether, &cip, &tcp) }
+            Pkt { client: true, seg: Some(*i), frame: wireify(c.wire, frame(Link::Ether, &cip, &tcp)) }
         })
         .collect();
     let spk: Vec<Pkt> = sorder
@@ -187,7 +203,7 @@ pub fn build(c: &FlowCase) -> (Vec<Pkt>, Vec<(usize, usize)>, Vec<(usize, usize)
         .map(|i| {
             let (a, b) = ssegs[*i];
             let tcp = Tcp { sport, dport: cport, seq: c.s_isn.wrapping_add(1).wrapping_add(a as u32), ack: c.c_isn.wrapping_add(1), flags: ACK | PSH, payload: ss[a..b].to_vec(), ..Tcp::default() };
-            Pkt { client: false, seg: Some(*i), frame: frame(Link::Ether, &sip, &tcp) }
+            Pkt { client: false, seg: Some(*i), frame: wireify(c.wire, frame(Link::Ether, &sip, &tcp)) }
         })
         .collect();
     let mut trace = vec![];
@@ -384,8 +400,9 @@ pub fn flow_case(orders: &'static [u8]) -> impl Strategy<Value = FlowCase> {
         0u8..3,
         proptest::bool::weighted(0.8),
         prop_oneof![3 => Just(0u8), 1 => 1u8..4],
+        prop_oneof![3 => Just(0u8), 1 => Just(1u8), 1 => Just(2u8)],
     )
-        .prop_map(|(exchange, c_cuts, s_cuts, c_isn, s_isn, order, order_seed, interleave, v4, lf_heads)| FlowCase { exchange, c_cuts, s_cuts, c_isn, s_isn, order, order_seed, interleave, v4, lf_heads })
+        .prop_map(|(exchange, c_cuts, s_cuts, c_isn, s_isn, order, order_seed, interleave, v4, lf_heads, wire)| FlowCase { exchange, c_cuts, s_cuts, c_isn, s_isn, order, order_seed, interleave, v4, lf_heads, wire })
 }
 
 fn classify(c: &FlowCase, st: &mut Stats) -> bool {
